@@ -58,6 +58,20 @@ Proof.
 Qed.
 Print Assumptions C22_batch_partition.
 
+(* outside the documented domain (a line count <= 0): nothing is ever flushed — except the
+   empty first row when the count is 0 *)
+Theorem C22_batch_degenerate : forall (A : Type) (n : Z) (fill : option A) (xs : list A),
+  (n <= 0)%Z ->
+  do_batch n fill xs = match xs with [] => [] | _ => if (n =? 0)%Z then [[]; xs] else [xs] end.
+Proof.
+  intros A n fill xs Hn. unfold do_batch. destruct xs as [|x r]; [reflexivity|]. cbn [batch_go length].
+  destruct (Z.eqb_spec (Z.of_nat 0) n) as [H|H]; cbn [Z.of_nat] in H.
+  - subst n. cbn [Z.eqb]. rewrite (batch_go_noflush A 0 fill ltac:(lia) r [x]) by discriminate. reflexivity.
+  - destruct (Z.eqb_spec n 0) as [->|_]; [congruence|].
+    rewrite (batch_go_noflush A n fill Hn r ([] ++ [x])) by discriminate. reflexivity.
+Qed.
+Print Assumptions C22_batch_degenerate.
+
 (* unique keeps exactly the items no earlier item shares a key with, in input order *)
 Theorem C22_unique_first_occurrences :
   forall (A K : Type) (keqb : K -> K -> bool) (key : A -> K),
@@ -157,10 +171,19 @@ Proof.
 Qed.
 Print Assumptions C22_attrgetter_paths.
 
-(* every async variant returns what the sync filter returns, for every call and value *)
-Theorem C22_async_variant_agree : forall aug c v, res_map fst (run_async aug c v) = run_sync c v.
+(* every async variant returns what the sync filter returns, for every value and every call
+   except sum with a str start ... *)
+Theorem C22_async_variant_agree_partial : forall aug c v,
+  agree_domain c = true -> res_map fst (run_async aug c v) = run_sync c v.
 Proof. exact run_async_agrees. Qed.
-Print Assumptions C22_async_variant_agree.
+Print Assumptions C22_async_variant_agree_partial.
+
+(* ... where the full statement is false: the builtin sum() refuses a str start, the async
+   loop concatenates (recorded finding C22-sum-str-start) *)
+Theorem C22_async_variant_agree_refuted : exists aug c v, res_map fst (run_async aug c v) <> run_sync c v.
+Proof.
+  exists false, (CSum ANone (VStr [])), (VList [VStr [97%N]; VStr [98%N]]). vm_compute. discriminate.
+Qed.
 
 (* the start argument of the async sum is left as it was — unless the accumulation is an
    augmented assignment on the alias of start AND start is a list (the flag is regenerated
